@@ -13,6 +13,11 @@ enum Op { Generate, FromBytes, Clone(usize), Drop(usize), Unwind(usize), CloneFr
 fn ops_alphabet(slots: usize) -> Vec<Op> { let mut v = vec![Op::Generate, Op::FromBytes]; for i in 0..slots { v.push(Op::Clone(i)); v.push(Op::Drop(i)); } v.push(Op::Unwind(0)); v.push(Op::Unwind(1)); v.push(Op::CloneFrom(0, 1)); v.push(Op::CloneFrom(1, 0)); v.push(Op::CloneFrom(2, 1)); v }
 fn op_str(o: &Op) -> String { match o { Op::Generate => "gen".into(), Op::FromBytes => "from".into(), Op::Clone(i) => format!("clone{}", i), Op::Drop(i) => format!("drop{}", i), Op::Unwind(i) => format!("unwind{}", i), Op::CloneFrom(i, j) => format!("clonefrom{}<-{}", i, j) } }
 
+/// what a program does with a key between construction and drop: derive its public key, run a key exchange
+fn use_key(k: &PrivateKey) {
+    if let Ok(p) = k.to_public() { let _ = k.diffie_hellman(&p); }
+}
+
 /// run a program on PrivateKey values; returns Err(description) on the first violation
 fn run_private(prog: &[Op]) -> Result<usize, String> {
     kalloc::drops::clear();
@@ -20,9 +25,9 @@ fn run_private(prog: &[Op]) -> Result<usize, String> {
     let mut released = 0usize;
     for (step, op) in prog.iter().enumerate() {
         match op {
-            Op::Generate => { let k = PrivateKey::generate(); let b = k.as_bytes().to_vec(); kalloc::drops::watch(k.as_bytes().as_ptr() as usize, 32); live.push(Some((k, b))); }
-            Op::FromBytes => { let raw: Vec<u8> = (0..32).map(|i| (step * 37 + i * 11 + 1) as u8).collect(); let k = PrivateKey::try_from(raw.as_slice()).unwrap(); kalloc::drops::watch(k.as_bytes().as_ptr() as usize, 32); live.push(Some((k, raw))); }
-            Op::Clone(i) => { if let Some(Some((k, b))) = live.get(*i) { let c = k.clone(); if c.as_bytes().as_ptr() == k.as_bytes().as_ptr() { return Err(format!("step {}: clone shares its buffer with the original", step)); } kalloc::drops::watch(c.as_bytes().as_ptr() as usize, 32); let b = b.clone(); live.push(Some((c, b))); } }
+            Op::Generate => { let k = PrivateKey::generate(); let b = k.as_bytes().to_vec(); kalloc::drops::watch(k.as_bytes().as_ptr() as usize, 32); if step % 2 == 0 { use_key(&k); } live.push(Some((k, b))); }
+            Op::FromBytes => { let raw: Vec<u8> = (0..32).map(|i| (step * 37 + i * 11 + 1) as u8).collect(); let k = PrivateKey::try_from(raw.as_slice()).unwrap(); kalloc::drops::watch(k.as_bytes().as_ptr() as usize, 32); if step % 2 == 0 { use_key(&k); } live.push(Some((k, raw))); }
+            Op::Clone(i) => { if let Some(Some((k, b))) = live.get(*i) { if step % 2 == 1 { use_key(k); } let c = k.clone(); if c.as_bytes().as_ptr() == k.as_bytes().as_ptr() { return Err(format!("step {}: clone shares its buffer with the original", step)); } kalloc::drops::watch(c.as_bytes().as_ptr() as usize, 32); if step % 3 == 0 { use_key(&c); } let b = b.clone(); live.push(Some((c, b))); } }
             Op::CloneFrom(i, j) => { if i != j && matches!(live.get(*i), Some(Some(_))) && matches!(live.get(*j), Some(Some(_))) {
                 let (src, sb) = { let (k, b) = live[*j].as_ref().unwrap(); (k.clone(), b.clone()) };     // a private copy of the source keeps the borrow checker out of the way; it is dropped (and checked) below
                 let src_addr = src.as_bytes().as_ptr() as usize; kalloc::drops::watch(src_addr, 32);
@@ -37,8 +42,13 @@ fn run_private(prog: &[Op]) -> Result<usize, String> {
                 for (a, bytes) in &seen { released += 1; if bytes.iter().any(|&x| x != 0) { return Err(format!("step {} ({}): the buffer at {:#x} ({}) was released still holding secret bytes {}", step, op_str(op), a, if *a == old_addr { "the key that clone_from replaced" } else { "a temporary" }, hex(bytes))); } }
                 if new_addr != old_addr && !seen.iter().any(|(a, _)| *a == old_addr) { return Err(format!("step {} ({}): the replaced key's buffer was neither reused nor released", step, op_str(op))); }
             } }
-            Op::Drop(i) | Op::Unwind(i) => { if let Some(slot) = live.get_mut(*i) { if let Some((k, _)) = slot.take() { let addr = k.as_bytes().as_ptr() as usize;
+            Op::Drop(i) | Op::Unwind(i) => { if let Some(slot) = live.get_mut(*i) { if let Some((k, secret)) = slot.take() { let addr = k.as_bytes().as_ptr() as usize;
+                // while the container is being dropped, EVERY block this thread releases is searched for the key (bytes 1..31: what scalar clamping
+                // leaves alone) — a second buffer the value owns (a cached, decoded or formatted copy of the key) is part of the value
+                kalloc::drops::scan_arm(&secret[1..31]);
                 if matches!(op, Op::Unwind(_)) { let r = std::panic::catch_unwind(std::panic::AssertUnwindSafe(move || { let _held = k; panic!("fault while a key is alive"); })); let _ = r; } else { drop(k); }
+                let (hits, haddr, hsize) = kalloc::drops::scan_disarm();
+                if hits > 0 { return Err(format!("step {} ({}): while the key was dropped, {} other heap block(s) owned by it went back to the allocator still holding the key bytes (first: {} bytes at {:#x}; the key's main buffer is at {:#x})", step, op_str(op), hits, hsize, haddr, addr)); }
                 let seen = kalloc::drops::take_seen();
                 match seen.iter().find(|(a, _)| *a == addr) { None => return Err(format!("step {}: the key's buffer was not released by drop", step)),
                     Some((_, bytes)) => { released += 1; if bytes.iter().any(|&x| x != 0) { return Err(format!("step {} ({}): released buffer still holds secret bytes {}", step, op_str(op), hex(bytes))); } } } } } }
@@ -119,7 +129,7 @@ fn run_payload_unaligned(prog: &[Op]) -> Result<usize, String> {
 impl Prop for C20 {
     fn id(&self) -> &'static str { "C20" }
     fn rule(&self) -> String {
-        "all programs of up to 5 (quick) / 6 (thorough) operations over {generate, from-bytes, clone i, drop i, unwind i (the container is dropped by stack unwinding out of a panic), i.clone_from(j) (the value i held is replaced)} with up to 3 live slots, run on real PrivateKey values (heap buffer watched by a global allocator: contents inspected at the moment of deallocation) \
+        "all programs of up to 5 (quick) / 6 (thorough) operations over {generate, from-bytes, clone i, drop i, unwind i (the container is dropped by stack unwinding out of a panic), i.clone_from(j) (the value i held is replaced)} with up to 3 live slots, run on real PrivateKey values that are USED between construction and drop (public key derived, a key exchange run) — heap buffer watched by a global allocator: contents inspected at the moment of deallocation, and every other block released while the key is dropped searched for the key bytes — \
          on PayloadKey values dropped in place inside a ManuallyDrop slot (bytes read afterwards), also at an address one byte past a word boundary, and on heap-resident Box<PayloadKey> values (block inspected by the allocator, which lives in a crate of its own so that the optimiser cannot see through it); every release must carry zeros, clones must own their own buffer, dropping one container must not change another; \
          plus the library's own use: after key_encrypt / key_decrypt return, no live heap block of the call holds the payload key. non-trivial = distinct program with at least one drop".into()
     }
